@@ -184,6 +184,24 @@ Definition triplet_inert (pkt : N) (p : str) : bool :=
                || ((pkt =? 28) && (0 <? N.land (nth 0 (tl p) 0) 15))
   end.
 
+(* the character set designation bits of a first triplet, as the reader keys its table with them *)
+Definition triplet_key (t : N) : N := N.land (N.shiftr (N.land t 16256) 10) 255.
+Definition triplet_of (p : str) : N := N.lor (N.lor (N.shiftl (nth 2 p 0) 16) (N.shiftl (nth 1 p 0) 8)) (nth 0 p 0).
+(* an X/28 (format 1) or M/29 packet of the selected magazine with designation code 0 or 4 whose first triplet keeps
+   the default character set designation *)
+Definition neutral_unit (mag0 : N) (u : N * str) : bool :=
+  match unit_addr u with
+  | Some (mag, pkt, p) =>
+    (mag =? mag0) && ((pkt =? 28) || (pkt =? 29)) && negb (Nat.ltb (length p) 1)
+    && match ham84_dec (nth 0 p 0) with
+       | Some dc => ((dc =? 0) || (dc =? 4)) && negb (Nat.ltb (length (tl p)) 3)
+                    && negb ((pkt =? 28) && (0 <? N.land (triplet_of (tl p)) 15))
+                    && (triplet_key (triplet_of (tl p)) =? 0)
+       | None => false
+       end
+  | None => false
+  end.
+
 (* classes of data units relative to the selected page (mag0, pn0) *)
 Definition is_our_header (mag0 : N) (pn0 : Z) (cs : N) (u : N * str) : bool :=
   match unit_addr u with
@@ -310,7 +328,7 @@ Fixpoint body_ok (mag0 : N) (pn0 : Z) (rows : list (N * rowspec)) (body : list (
     | (row, sp) :: rs => is_our_row mag0 row (row_cells sp) u && body_ok mag0 pn0 rs r
     | [] => false
     end
-  | (_, (false, u)) :: r => benign mag0 pn0 u && body_ok mag0 pn0 rows r
+  | (_, (false, u)) :: r => (benign mag0 pn0 u || neutral_unit mag0 u) && body_ok mag0 pn0 rows r
   end.
 Fixpoint nodupN (l : list N) : bool := match l with [] => true | x :: r => negb (nmem x r) && nodupN r end.
 Definition inst_mux_ok (mag0 : N) (pn0 : Z) (im : inst * imux) : bool :=
@@ -319,14 +337,14 @@ Definition inst_mux_ok (mag0 : N) (pn0 : Z) (im : inst * imux) : bool :=
   && nodupN (map fst (i_rows i)) && forallb (fun r => rowspec_ok (snd r) && (fst r <? 256)) (i_rows i)
   && body_ok mag0 pn0 (i_rows i) (im_body m)
   && match im_tail m with
-     | Some (tm, dead) => is_terminator mag0 pn0 (snd tm) && forallb (fun x => dead_ok mag0 pn0 (snd x)) dead
+     | Some (tm, dead) => is_terminator mag0 pn0 (snd tm) && forallb (fun x => dead_ok mag0 pn0 (snd x) || neutral_unit mag0 (snd x)) dead
      | None => true
      end.
 (* the decidable class of multiplexings, for a reader that is given the page *)
 Definition mux_ok (s : sched) (m : mux) : bool :=
   (1 <=? s_mag s) && (s_mag s <=? 8) && (0 <=? s_pn s)%Z && (s_pn s <=? 99)%Z
   && Nat.eqb (length (s_insts s)) (length (mx_insts m))
-  && forallb (fun x => dead_ok (s_mag s) (s_pn s) (snd x)) (mx_pre m)
+  && forallb (fun x => dead_ok (s_mag s) (s_pn s) (snd x) || neutral_unit (s_mag s) (snd x)) (mx_pre m)
   && forallb (inst_mux_ok (s_mag s) (s_pn s)) (combine (s_insts s) (mx_insts m)).
 (* and for a reader that has to find the page: nothing carrying the subtitle flag in front of our first header,
    which carries it *)
